@@ -425,17 +425,19 @@ pub mod sync {
 
     impl<T> Drop for MutexGuard<'_, T> {
         fn drop(&mut self) {
-            // Report the release while the lock is still held (so that the
+            // The release is an operation of its own: a runtime may suspend the
+            // thread here, i.e. while it still holds the lock, which is the only
+            // way other threads can ever observe the lock as taken. The release
+            // is reported while the lock is still held (so that the
             // happens-before edge is published before anyone can acquire it),
-            // then release the real lock and clear the flag.
-            done(
-                self.go,
-                OpKind::MutexUnlock,
-                self.owner.addr(),
-                None,
-                true,
-                Location::caller(),
-            );
+            // then the real lock is released and the flag cleared.
+            let loc = Location::caller();
+            let go = if self.go == Go::Free {
+                Go::Free
+            } else {
+                point(OpKind::MutexUnlock, self.owner.addr(), None, Wait::No, loc)
+            };
+            done(go, OpKind::MutexUnlock, self.owner.addr(), None, true, loc);
             self.guard.take();
             self.owner.held.store(false, StdOrdering::SeqCst);
         }
